@@ -11,6 +11,9 @@ package main
 import (
 	"fmt"
 	"math/rand"
+	"net/http"
+	"net/http/httptest"
+	"net/url"
 	"os"
 	"runtime"
 	"sort"
@@ -253,6 +256,101 @@ func breaker(r *rep.Report, rng *rand.Rand, n int) {
 		wg.Wait()
 		sort.Slice(log, func(i, j int) bool { return log[i].Before < log[j].Before })
 		checkBreaker(r, log, limit, interval, callers, pattern)
+	}
+}
+
+// httpBreaker: the same admission log, but taken at the place where users meet
+// the breaker: core.HTTPRequest.Do against a local endpoint with a breaker
+// registered for its host in core.HTTPBreakers.  A request is admitted iff it
+// reached the endpoint (status 200); a refused one must answer 430 and must
+// not reach the endpoint.
+func httpBreaker(r *rep.Report, rng *rand.Rand, n int) {
+	for run := 0; run < n; run++ {
+		limit := int64(1 + rng.Intn(8))
+		interval := time.Duration(150+rng.Intn(250)) * time.Millisecond
+		tick := interval / 20
+		callers := 1 + rng.Intn(8)
+		pattern := []string{"burst-then-slow-poll", "steady", "random"}[rng.Intn(3)]
+		var hits int64
+		srv := httptest.NewServer(http.HandlerFunc(func(w http.ResponseWriter, req *http.Request) {
+			atomic.AddInt64(&hits, 1)
+			fmt.Fprintln(w, "ok")
+		}))
+		u, _ := url.Parse(srv.URL)
+		b, err := core.NewOutboundBreaker(limit, interval)
+		if err != nil {
+			panic(err)
+		}
+		// by host in even runs, by the full URL in odd runs (both registrations are documented)
+		target := srv.URL + "/hook"
+		if run%2 == 0 {
+			core.HTTPBreakers = map[string]*core.OutboundBreaker{u.Host: b}
+		} else {
+			core.HTTPBreakers = map[string]*core.OutboundBreaker{target: b}
+		}
+		r.Journal(rep.J{"http_breaker": run, "limit": limit, "interval_ms": interval.Milliseconds(), "callers": callers, "pattern": pattern})
+		start := time.Now()
+		total := 2*interval + 100*time.Millisecond
+		var mu sync.Mutex
+		var log []bcall
+		var odd []string
+		var wg sync.WaitGroup
+		for c := 0; c < callers; c++ {
+			wg.Add(1)
+			seed := rng.Int63()
+			go func(c int, seed int64) {
+				defer wg.Done()
+				lr := rand.New(rand.NewSource(seed))
+				i := 0
+				for time.Since(start) < total {
+					before := time.Since(start).Nanoseconds()
+					res, err := core.HTTPRequest{Method: "GET", URI: target}.Do(drv.Ctx())
+					after := time.Since(start).Nanoseconds()
+					ok := err == nil && res != nil && res.Status == 200
+					mu.Lock()
+					log = append(log, bcall{c, before, after, ok})
+					if !ok && (res == nil || res.Status != 430 || err != core.Throttled) {
+						odd = append(odd, fmt.Sprintf("status=%v err=%v", res, err))
+					}
+					mu.Unlock()
+					i++
+					var pause time.Duration
+					switch pattern {
+					case "burst-then-slow-poll":
+						if int64(i) > limit {
+							pause = tick*2 + time.Duration(lr.Int63n(int64(tick)))
+						}
+					case "steady":
+						pause = interval / time.Duration(limit+1)
+					default:
+						pause = time.Duration(lr.Int63n(int64(tick * 3)))
+					}
+					if pause > 0 {
+						time.Sleep(pause)
+					}
+				}
+			}(c, seed)
+		}
+		wg.Wait()
+		srv.Close()
+		core.HTTPBreakers = map[string]*core.OutboundBreaker{}
+		sort.Slice(log, func(i, j int) bool { return log[i].Before < log[j].Before })
+		admitted := 0
+		for _, c := range log {
+			if c.Ok {
+				admitted++
+			}
+		}
+		wit := rep.J{"kind": "http-breaker", "limit": limit, "interval_ms": interval.Milliseconds(), "callers": callers, "pattern": pattern, "requests": len(log), "answered_200": admitted, "reached_the_endpoint": atomic.LoadInt64(&hits), "registered_by": []string{"host", "url"}[run%2]}
+		r.Count("http_requests_logged", len(log))
+		if len(odd) > 0 {
+			wit["odd"] = odd[:1]
+			r.Violate("", "a request through a breaker-guarded HTTPRequest.Do ended neither with status 200 nor as throttled (430)", wit)
+		}
+		if int(atomic.LoadInt64(&hits)) != admitted {
+			r.Violate("", "the number of requests that reached the endpoint differs from the number answered 200 (a throttled request was sent, or an admitted one was not)", wit)
+		}
+		checkBreaker(r, log, limit, interval, callers, "http-"+pattern)
 	}
 }
 
@@ -508,6 +606,7 @@ func main() {
 		capacityConcurrent(r, rng, e.Pick(240, 1500))
 	case "breaker":
 		breaker(r, rng, e.Pick(6, 30))
+		httpBreaker(r, rng, e.Pick(4, 20))
 	case "throttle":
 		throttle(r, rng, e.Pick(30, 200))
 	}
